@@ -355,7 +355,13 @@ func run[E any, P fields.Ptr[E]](c *mon.Ctx, f *fields.Field[E, P]) {
 				dst[k] ^= 0xff
 			}
 			for _, p := range pieces {
-				n, err := h.Write(p)
+				// the buffer handed to Write is the caller's again when Write returns (io.Writer: "must not retain p"):
+				// it is overwritten at once, as a caller streaming through one buffer does
+				buf := append(make([]byte, 0, len(p)+3), p...)
+				n, err := h.Write(buf)
+				for k := range buf {
+					buf[k] ^= 0xa5
+				}
 				c.Check("h2f.Write", W+"/Write/short", err == nil && n == len(p), func() string { return desc() + fmt.Sprintf(": Write returned (%d, %v)", n, err) })
 			}
 			pre := append(make([]byte, 0, len(prefix)+f.Bytes+8), prefix...)
@@ -372,7 +378,11 @@ func run[E any, P fields.Ptr[E]](c *mon.Ctx, f *fields.Field[E, P]) {
 				return fmt.Sprintf("%s: Size()=%d, Sum length %d, field bytes %d", W, h.Size(), len(s2), f.Bytes)
 			})
 			extra := rng.Bytes(1 + rng.Intn(70))
-			h.Write(extra)
+			ebuf := append([]byte(nil), extra...)
+			h.Write(ebuf)
+			for k := range ebuf {
+				ebuf[k] = 0
+			}
 			s3 := h.Sum(nil)
 			w3 := exp(append(append([]byte{}, all...), extra...))
 			c.Check("h2f.Sum", W+"/Sum/after-Sum-Write", bytes.Equal(s3, w3), func() string {
@@ -383,6 +393,17 @@ func run[E any, P fields.Ptr[E]](c *mon.Ctx, f *fields.Field[E, P]) {
 			w4 := exp(nil)
 			c.Check("h2f.Reset", W+"/Reset", bytes.Equal(s4, w4), func() string {
 				return desc() + fmt.Sprintf("; Reset; Sum: got %s want hash of the empty message %s", hx(s4), hx(w4))
+			})
+			// the first write after a Reset, through a buffer that is reused at once
+			ebuf = append(ebuf[:0], extra...)
+			h.Write(ebuf)
+			for k := range ebuf {
+				ebuf[k] = 0xff
+			}
+			s5 := h.Sum(nil)
+			w5 := exp(extra)
+			c.Check("h2f.Sum", W+"/Sum/after-Reset-Write", bytes.Equal(s5, w5), func() string {
+				return desc() + fmt.Sprintf("; Reset; Write(%s) from a buffer overwritten afterwards; Sum: got %s want %s", hx(extra), hx(s5), hx(w5))
 			})
 		})
 	}
